@@ -1,5 +1,5 @@
 """C16 — equality, hashing and ordering use the same fields, like with like (field-level clauses)."""
-from ..rules import eqord, tail, fields, vis, summary, beliefs
+from ..rules import eqord, tail, fields, vis, summary, beliefs, data
 
 EXPL = ("Decides on MIR for both type families: PartialEq compares only like-named fields of self and other and all fields take part "
         "(lengths, block size, and the block hash prefixes sliced by the like-indexed length); Hash feeds exactly the fields PartialEq "
@@ -26,6 +26,7 @@ def run(ctx):
         ctx.guard("C16", "tail-n", lambda: tail.normalize_in_place(ctx, prog))
         ctx.guard("C16", "full-eq", lambda: eqord.full_eq(ctx, prog))
         ctx.guard("C16", "traits", lambda: vis.trait_census(ctx, prog, scope='core::cmp::|core::hash::Hash'))
+        ctx.guard("C16", "const values", lambda: data.const_census(ctx, prog, data.CONST_SCOPES["C16"], floor=1))
         ctx.guard("C16", "summaries", lambda: summary.check(ctx, prog, 'core::cmp::|core::hash::Hash|::cmp_by_block_size|block_size::cmp', floor=2))
         ctx.guard("C16", "path summaries", lambda: summary.check_paths(ctx, prog, 'core::cmp::|core::hash::Hash|::cmp_by_block_size|block_size::cmp', floor=2))
         if c in ("dbg", "unsafe_dbg", "strict_dbg"):
